@@ -413,7 +413,7 @@ def run_cases(ctx, cases, tag, relation):
         ctx.obligation("correspondence " + relation, False, err[-800:])
         ctx.fail("harness/" + tag, "correspondence %s could not be evaluated: %s" % (relation, err[-400:]),
                  dict(relation=relation, error=err[-2000:]), no_input=True)
-        return
+        return -1
     for c, o in zip(cases, obs):
         if c["kind"] == "expr":
             ctx.case_seen("e:%d:%s" % (c.get("style", 0), json.dumps(c["e"])), True)
@@ -457,6 +457,7 @@ def run_cases(ctx, cases, tag, relation):
         ctx.fail("model/fuel", "the model's parser answer depends on its fuel for %r" % (cases[i],),
                  dict(kind="model-defect", case=cases[i]), no_input=True)
     ctx.obligation("parser fuel sufficient on all embedded cases (answer unchanged with twice the fuel)", not fuel)
+    return len(law) + len(corr)
 
 
 # ----------------------------------------------------------------------------- grids
@@ -535,9 +536,8 @@ def run_grid(ctx, shards, tag, per_file=1):
         badset.add((sh["L"], lo, lo + sh["bs"]))
         redo += [dict(kind="single", s=enc.grid_string(sh["L"], i)) for i in range(lo, lo + sh["bs"])]
     if redo:
-        before = len(ctx.violations)
-        run_cases(ctx, redo, "gridredo_" + tag, "C15.Corr.corr_codes on the blocks whose digests differ")
-        if len(ctx.violations) == before and not ctx.known_seen:
+        found = run_cases(ctx, redo, "gridredo_" + tag, "C15.Corr.corr_codes on the blocks whose digests differ")
+        if found == 0:
             ctx.fail("corr/grid-digest", "block digests differ (%s) but the embedded re-run found no difference" % tag,
                      dict(blocks=[(sh, b) for sh, b in bad_blocks[:6]]), no_input=True)
     seen = set()
@@ -577,7 +577,10 @@ def run(ctx):
                        "with every node field), the law evaluated on every string; plus embedded cases: corpus, random "
                        "derivations of the documented language rendered with random whitespace and redundant brackets, "
                        "star-anywhere trees, mutated renderings, random character strings (incl. digits, upper case, "
-                       "non-ASCII word and non-word characters, all whitespace kinds), two-spelling pairs; non-trivial = "
+                       "non-ASCII word and non-word characters, all whitespace kinds), every derivation shape to depth 1 (thorough: 2), "
+                       "two-spelling pairs, different-pattern pairs, expressions built through the Python API (then, |, join, "
+                       "chaining methods; compile_expr), stability of the answer across calls / observe use / cache drops; "
+                       "non-trivial = "
                        "the text is accepted by parse; distinct = distinct texts")
     rnd = random.Random(ctx.seed)
     if ctx.replay:
@@ -589,7 +592,7 @@ def run(ctx):
     quick = ctx.tier == "quick"
     # embedded cases first (corpus includes the triggers of the listed findings)
     t0 = time.time()
-    cases = corpus() + derivation_cases(rnd, ctx, quick) + gen_cases(rnd, ctx, 1500 if quick else 30000)
+    cases = corpus() + derivation_cases(rnd, ctx, quick) + gen_cases(rnd, ctx, 1200 if quick else 20000)
     for c in cases[:2] + cases[-2:]:
         ctx.sample(c)
     run_cases(ctx, cases, "cases", "C15.Corr.corr_codes (Model.compile_str = parse/compile_str on every text)")
@@ -602,7 +605,7 @@ def run(ctx):
     run_grid(ctx, shards, "exhaustive_le_%d" % top, per_file=1 if quick else 4)
     t2 = time.time()
     win = []
-    for L, n in ((6, 40), (7, 40), (8, 20)) if quick else ((7, 2500), (8, 800), (9, 300)):
+    for L, n in ((6, 20), (7, 15), (8, 5)) if quick else ((7, 1200), (8, 500), (9, 200)):
         win += windows(rnd, L, n)
     run_grid(ctx, win, "windows", per_file=8 if quick else 40)
     ctx.cov["timing_s"] = dict(embedded_cases=round(t1 - t0, 1), exhaustive_grid=round(t2 - t1, 1),
